@@ -1,11 +1,13 @@
-(* C10 - reopening preserves everything not modified (store-model part). *)
+(* C10 - reopening preserves everything not modified (store-model part).
+   reach bp ba sb h: state after CreateForWrite (superblock version sb) and history h; bp, ba: the error-path
+   patches check-link-before-allocating / attrinfo-check-before-dense-write present or not (theorems hold for all four). *)
 From HV Require Import Base.Prelude Model.Store Proofs.Store Proofs.StoreOps Proofs.StoreInv Proofs.StoreProps.
 Local Open Scope N_scope.
 
 (* close + OpenForWrite: all extents stay valid and disjoint, the new allocator starts at or above every one of
    them, so nothing allocated afterwards intersects an existing extent *)
-Theorem C10_reopen_preserves : forall sb h,
-  let s := reach sb h in let s1 := fst (step s OpReopen) in
+Theorem C10_reopen_preserves : forall bp ba sb h,
+  let s := reach bp ba sb h in let s1 := fst (step s OpReopen) in
   ovf (st s1) = false ->
   (NoOverlap (exts (st s1)) /\ Forall (fun e => ext_end e <= next (al (st s1))) (exts (st s1))) /\
   incl (exts (st s)) (exts (st s1)) /\
@@ -24,8 +26,8 @@ Proof. exact C10_refuted_without_extend_l. Qed.
 Print Assumptions C10_refuted_without_extend.
 
 (* a session all of whose calls issue no store command writes nothing and leaves size, allocator and extents as they were *)
-Theorem C10_noop_session : forall sb h0 h,
-  let s := reach sb h0 in
+Theorem C10_noop_session : forall bp ba sb h0 h,
+  let s := reach bp ba sb h0 in
   closed s = true -> ovf (st s) = false ->
   all_quiet s (OpReopen :: h ++ [OpClose]) ->
   let s' := run s (OpReopen :: h ++ [OpClose]) in
@@ -35,16 +37,24 @@ Proof. exact C10_noop_session_l. Qed.
 Print Assumptions C10_noop_session.
 
 (* calls that are quiet: everything that fails, except creations, new attributes, hard links, chunked writes *)
-Theorem C10_failed_call_is_quiet : forall sb h o,
-  let s := reach sb h in
-  is_session_op o = false -> op_fails s o -> may_leave_bytes o = false -> quiet_step s o.
+Theorem C10_failed_call_is_quiet : forall bp ba sb h o,
+  let s := reach bp ba sb h in
+  is_session_op o = false -> op_fails s o -> may_leave_bytes bp ba o = false -> quiet_step s o.
 Proof. exact C10_failed_call_is_quiet_l. Qed.
 Print Assumptions C10_failed_call_is_quiet.
 
-(* the byte-identity clause does not extend to sessions with a failing creation: the file grows *)
+(* without notes/fixes/check-link-before-allocating the byte-identity clause does not extend to sessions with a
+   failing creation: the file grows *)
 Theorem C10_noop_refuted_failed_creation :
-  let s := reach 2 hist_sess1 in let sess := [OpReopen; OpMkGroup 0 1 false; OpClose] in
+  let s := reach false false 2 hist_sess1 in let sess := [OpReopen; OpMkGroup 0 1 false; OpClose] in
   closed s = true /\ snd (step (fst (step s OpReopen)) (OpMkGroup 0 1 false)) = false /\
   fsize (st s) < fsize (st (run s sess)) /\ objs (run s sess) = objs s.
 Proof. exact C10_noop_refuted_failed_creation_l. Qed.
 Print Assumptions C10_noop_refuted_failed_creation.
+
+(* with the pre-check the same kind of session is quiet (hence byte-identical by C10_noop_session) *)
+Theorem C10_failed_creation_quiet_with_precheck :
+  let s := reach true true 2 hist_sess1 in
+  all_quiet s (OpReopen :: [OpMkGroup 0 1 false; OpMkContig 0 1 false 12 1 8; OpHardLink 0 1 false 1] ++ [OpClose]).
+Proof. exact C10_failed_creation_quiet_with_precheck_l. Qed.
+Print Assumptions C10_failed_creation_quiet_with_precheck.
